@@ -88,11 +88,9 @@ func retAlignment(fi *FuncInfo) []int {
 		old = append(old, r.Name)
 	}
 	cur := funcRets(fi)
-	same := len(old) == len(cur)
-	for i := 0; same && i < len(cur); i++ {
-		same = old[i] == cur[i]
-	}
-	if same {
+	if len(old) == len(cur) {
+		// the same number of return sites: they keep their ordinals whatever
+		// their text (a changed return statement is still "the N-th return")
 		return nil
 	}
 	n, m := len(old), len(cur)
@@ -112,10 +110,15 @@ func retAlignment(fi *FuncInfo) []int {
 		}
 	}
 	out := make([]int, m+1)
+	usedOld := make([]bool, n)
+	type pair struct{ i, j int }
+	var matches []pair
 	for i, j := 0, 0; i < n && j < m; {
 		switch {
 		case old[i] == cur[j]:
 			out[j+1] = i + 1
+			usedOld[i] = true
+			matches = append(matches, pair{i, j})
 			i++
 			j++
 		case l[i+1][j] >= l[i][j+1]:
@@ -123,6 +126,30 @@ func retAlignment(fi *FuncInfo) []int {
 		default:
 			j++
 		}
+	}
+	// between two matched returns, a snapshot return without a textual match
+	// is taken to be the (changed) current return at the corresponding place,
+	// counted from the end of the gap: anchored checks are then evaluated at a
+	// changed statement instead of being lost
+	matches = append(matches, pair{n, m})
+	pi, pj := 0, 0
+	for _, mt := range matches {
+		oi, cj := mt.i-1, mt.j-1
+		for oi >= pi && cj >= pj {
+			if usedOld[oi] {
+				oi--
+				continue
+			}
+			if out[cj+1] != 0 {
+				cj--
+				continue
+			}
+			out[cj+1] = oi + 1
+			usedOld[oi] = true
+			oi--
+			cj--
+		}
+		pi, pj = mt.i+1, mt.j+1
 	}
 	return out
 }
